@@ -201,6 +201,18 @@ def _op_parameters(op) -> list:
     return params
 
 
+def _tdm_var(values) -> np.ndarray:
+    """Array holding the per-time-bin values of one TDM parameter.
+
+    The natural numeric dtype is used whenever the values form a regular array (only such arrays
+    can be serialized to text); ragged or non-numeric values are kept in an object array.
+    """
+    try:
+        return np.array([values])
+    except ValueError:
+        return np.array([values], dtype=object)
+
+
 def to_blackbird(prog: Program, version: str = "1.0") -> blackbird.BlackbirdProgram:
     """Convert a Strawberry Fields Program to a Blackbird Program.
 
@@ -286,10 +298,7 @@ def to_blackbird(prog: Program, version: str = "1.0") -> blackbird.BlackbirdProg
             }
         )
         bb._var.update(
-            {
-                f"{p.name}": np.array([prog.tdm_params[i]])
-                for i, p in enumerate(prog.loop_vars)
-            }
+            {f"{p.name}": _tdm_var(prog.tdm_params[i]) for i, p in enumerate(prog.loop_vars)}
         )
 
     return bb
